@@ -278,8 +278,24 @@ TrDraws ==
         ELSE << <<"H.unknownSite", FALSE>> >>,
         {"Draws", "Draws." \o e.site \o "." \o e.via})
 
+\* Values drawn one after the other on ONE thread by different calls (seeds, salts, challenges, in a mixed order):
+\* no value shares a 4-byte window with one of the eight values drawn before it.  Over the whole stream the expected
+\* number of coincidences under a uniform source is about 10^-4 (a few hundred thousand window pairs at 2^-32 each);
+\* two or more means bytes are handed out twice (a pool that is not consumed, a refill that keeps a tail).
+Windows(v) == { SubSeq(v, a, a + 3) : a \in 1..(Len(v) - 3) }
+SharedWindow(v, w) == Windows(v) \cap Windows(w) # {}
+TrDrawStream ==
+    /\ IsEv("DrawStream")
+    /\ LET e == E
+           n == Len(e.obs)
+           shared == Cardinality({ pr \in { <<i, j>> \in (1..n) \X (1..n) : i < j /\ j - i <= 8 } :
+                                    SharedWindow(e.obs[pr[1]], e.obs[pr[2]]) }) IN
+       DonePure(<< <<"C15.noSharedBytes", shared <= 1>>,
+                   <<"C15.noRepeat", \A i, j \in 1..n : (i < j /\ e.kinds[i] = e.kinds[j] /\ Len(e.obs[i]) >= 8) => e.obs[i] # e.obs[j]>> >>,
+                {"DrawStream"})
+
 Next ==
-    \/ TrReset \/ SkipBad(<<>>)
+    \/ TrReset \/ SkipBad(<<>>) \/ TrDrawStream
     \/ TrNorm \/ TrNormCmp \/ TrNormSweep \/ TrPin \/ TrPinVerify \/ TrPinSweep
     \/ TrIntegrity \/ TrIntegrityReconnect \/ TrCardSize \/ TrCardCell \/ TrCardCoord \/ TrCardProof \/ TrCardVerify
     \/ TrDraws
